@@ -847,6 +847,41 @@ def install(reg):
 
     M[np.expand_dims] = m_expand_dims
 
+    def m_squeeze(interp, a, axis=None):
+        """np.squeeze(a): the view of `a` without its length-1 axes (an extent that is not a literal forks on `== 1`)"""
+        if not isinstance(a, SymArr):
+            return interp.native(np.squeeze, a, axis)
+        if axis is not None:
+            raise OutOfSubset("np.squeeze with an explicit axis")
+        ctx = interp.ctx
+        drop = []
+        for k, d in enumerate(a.shape):
+            if isinstance(d, int):
+                one = d == 1
+            elif ctx.entails(lift(d) == 1):
+                one = True
+            elif ctx.entails(lift(d) != 1):
+                one = False
+            else:
+                one = bool(ctx.branch(lift(d) == 1))
+            if one:
+                drop.append(k)
+        if not drop:
+            return a
+        keep = [k for k in range(len(a.shape)) if k not in drop]
+        g = _guarded(a, view=True)
+
+        def fn(*idx, _keep=tuple(keep), _n=len(a.shape)):
+            full = [0] * _n
+            for pos, k in enumerate(_keep):
+                full[k] = idx[pos]
+            return g(*full)
+
+        r = nd(tuple(a.shape[k] for k in keep), fn, a.kind, base=a.base, like=a)
+        return _carry_guards(r, a, g)
+
+    M[np.squeeze] = m_squeeze
+
     def m_isrealobj(interp, a):
         if isinstance(a, SymArr):
             c = is_complex(a)
